@@ -54,6 +54,12 @@ ZOO_FIXED = [
     "list(range(40))", "{str(i): i for i in range(12)}", "['word %d' % i for i in range(15)]",
 ]
 
+ZOO_HASH = [
+    "{'b', 'a', 'c', 'd', 'e'}", "frozenset({'x', 'y', 'z'})", "{frozenset({'a'}), frozenset({'b'}), frozenset({'c'})}",
+    "{frozenset({'a', 'b'}), frozenset({'c'}), frozenset()}", "({'p', 'q', 'r'},)", "[{'p', 'q', 'r'}, ({'s', 't', 'u'},)]",
+    "{'k': {'v1', 'v2', 'v3'}}", "{('a', 'b'), ('c',), ('d', 'e')}", "(frozenset({'m', 'n', 'o'}),)", "{'only'}",
+]
+
 
 def rand_value(rng, depth=0):
     k = rng.randrange(11 if depth < 3 else 6)
@@ -159,14 +165,17 @@ def f1_predicate(values, r):
     return True
 
 
-def rerun_job(files, flags, desc, fails, runs=2, require_green=True, stdin=b"", values=None):
-    """first session with `flags`, then `runs` identical sessions; each rerun must be a no-op. returns #sessions"""
+def rerun_job(files, flags, desc, fails, runs=2, require_green=True, stdin=b"", values=None, hashseeds=None):
+    """first session with `flags`, then `runs` identical sessions; each rerun must be a no-op. returns #sessions
+    hashseeds: PYTHONHASHSEED of session 0, 1, 2, ... (every pytest call is a new process with another string hash seed; pinning
+    different seeds makes that deterministic instead of leaving it to chance)"""
     h = Hist(files)
     try:
         args = [f"--inline-snapshot={flags}"]
-        r0 = h.run(args, stdin=stdin)
+        env = (lambda k: {"PYTHONHASHSEED": str(hashseeds[k % len(hashseeds)])}) if hashseeds else (lambda k: None)
+        r0 = h.run(args, env=env(0), stdin=stdin)
         for i in range(runs):
-            r = h.run(args, stdin=stdin)
+            r = h.run(args, env=env(i + 1), stdin=stdin)
             diffs = diff_trees(r.before, r.after)
             problems = []
             if diffs:
@@ -254,6 +263,29 @@ ORDER_MORE = {
     "in-list: respelled member (update), new member (fix), unused member (trim)": (
         "from inline_snapshot import snapshot\n\n\ndef test_a():\n    for x in (1, 4):\n        assert x in snapshot([0+1, 2])\n", ("fix", "trim", "update")),
 }
+
+# F31 (known finding): a comparison that fails (fix pending) in front of other snapshot uses of the same test.  A run that approves
+# only trim (or update) does not make that comparison succeed, the test stops there, and the snapshots behind it are not (or only
+# partly) evaluated: their trim is not seen, or sub-snapshot keys the stopped test never reached are trimmed away.
+_H = "from inline_snapshot import snapshot\n\n\n"
+ABORT_PROJECTS = {
+    "abort: failing == in front of a `<=` snapshot with slack": (
+        _H + "def test_a():\n    assert 5 == snapshot(4)\n    assert 3 <= snapshot(9)\n", ("fix", "trim")),
+}
+ABORT_MORE = {
+    "abort: failing sub-snapshot in front of other keys of the same dict": (
+        _H + "def test_a():\n    s = snapshot({\"b\": 2, \"a\": 1})\n    assert 5 == s[\"b\"]\n    assert 1 == s[\"a\"]\n    assert 3 == s[\"c\"]\n",
+        ("create", "fix", "trim")),
+    "abort: failing == in front of an `in` snapshot with an unused member": (
+        _H + "def test_a():\n    s = snapshot([1, 2])\n    assert 5 == snapshot(4)\n    assert 1 in s\n", ("fix", "trim")),
+}
+
+
+def f31_predicate(key, bad_orders):
+    """every order that ends differently approves trim (or update) while the failing comparison in front is not yet fixed"""
+    if not str(key).startswith("abort:") or not bad_orders:
+        return False
+    return all("fix" in o and any(c in o and o.index(c) < o.index("fix") for c in ("trim", "update")) for o in bad_orders)
 
 
 def trailing_text_layout(src):
@@ -351,6 +383,7 @@ def _run(tier, seed, only=None):
                     plans.append((tid, tpl, CATS))
             f13_set = dict(F13_PROJECTS) if quick else dict(F13_PROJECTS, **F13_MORE)
             f13_set.update(ORDER_PROJECTS if quick else dict(ORDER_PROJECTS, **ORDER_MORE))
+            f13_set.update(ABORT_PROJECTS if quick else dict(ABORT_PROJECTS, **ABORT_MORE))
             for name, (src, cats) in f13_set.items():
                 plans.append((name, {"test_a.py": src, "pyproject.toml": PYPROJECT_PLAIN}, cats))
             if only == "C08":
@@ -389,6 +422,11 @@ def _run(tier, seed, only=None):
                 c08.append(ex.submit(rerun_job, zoo_project(values, tag), ALLF, dict(project=f"zoo {tag}", values=len(values)), fails,
                                      2, True, b"", values))
                 samples.append(f"C08 zoo {tag}: {values[:6]} ...")
+            if want_c08:
+                # values whose text could depend on the string hash seed (sets / frozensets of strings, also partially ordered
+                # elements and sets nested in containers that are rendered as a whole), re-run under pinned, different seeds
+                c08.append(ex.submit(rerun_job, zoo_project(ZOO_HASH, "hash"), ALLF, dict(project="zoo hash-seed sensitive values", values=len(ZOO_HASH)),
+                                     fails, 3, True, b"", ZOO_HASH, [1, 2, 3, 4]))
             if want_c08:
                 c08.append(ex.submit(rerun_job, F7_PROJECT, ALLF, dict(project="complex value (repr with outer parentheses)"), fails))
             if not quick and want_c08:
@@ -436,6 +474,8 @@ def _run(tier, seed, only=None):
                     samples.append(f"C09 {key}: {len(finals)} orders of {list(F)} == combined run")
                 if bad or has_crashed:
                     finding = "F13" if (f13_predicate(files, F, r) and not among) else None
+                    if finding is None and not has_crashed and f31_predicate(key, [x[0] for x in bad]):
+                        finding = "F31"
                     o, k, txt = bad[0] if bad else (orders[0], "-", "")
                     fails.add(finding, dict(project=key, categories=list(F), orders_differing_from_combined=[list(x[0]) for x in bad][:6],
                                             orders_differing_among_themselves=[list(x) for x in among][:6]),
